@@ -207,10 +207,16 @@ func (v *VecDense) CloneFromVec(a Vector) {
 		return
 	}
 	n := a.Len()
+	data := v.mat.Data
+	if v.mat.Inc != 1 {
+		// The receiver is a strided view: its data slice is
+		// interleaved with elements it does not own.
+		data = nil
+	}
 	v.mat = blas64.Vector{
 		N:    n,
 		Inc:  1,
-		Data: use(v.mat.Data, n),
+		Data: use(data, n),
 	}
 	if r, ok := a.(RawVectorer); ok {
 		blas64.Copy(r.RawVector(), v.mat)
@@ -247,7 +253,7 @@ func (v *VecDense) SetRawVector(a blas64.Vector) {
 // returns the number of elements it copied.
 func (v *VecDense) CopyVec(a Vector) int {
 	n := min(v.Len(), a.Len())
-	if v == a {
+	if v == a || n == 0 {
 		return n
 	}
 	if r, ok := a.(RawVectorer); ok {
